@@ -721,6 +721,64 @@ def _first_evaluated(stmt: ast.stmt, target: ast.Name) -> bool:
     return state["found"] and not state["bad"]
 
 
+def unroll_new_display_loops(tree: ast.Module, relpath: str) -> int:
+    """`for X in (A, B, ...): BODY` over a tuple/list *display* of at most four plain expressions (names / attribute paths), where X is a
+    local that does not exist on the reference tree and BODY neither rebinds X nor contains a `break`/`continue` of this loop: replaced by
+    BODY[X:=A]; BODY[X:=B]; ... — the same statements executed in the same order (the inverse of merging sibling loops into one loop over
+    a display of their collections)."""
+    all_units = localnames.reference().get("__units__", {}).get(relpath)
+    if all_units is None:
+        return 0
+    ref = localnames.reference().get(relpath) or {}
+    done = 0
+    for q, fn in localnames.units(tree):
+        if q not in all_units:
+            continue
+        known = {w[0] for w in ref.get(q, [])}
+        for parent in ast.walk(fn):
+            for fld in ("body", "orelse", "finalbody"):
+                blk = getattr(parent, fld, None)
+                if not (isinstance(blk, list) and blk and isinstance(blk[0], ast.stmt)):
+                    continue
+                i = 0
+                while i < len(blk):
+                    lp = blk[i]
+                    i += 1
+                    if not (isinstance(lp, ast.For) and not lp.orelse and isinstance(lp.target, ast.Name) and lp.target.id not in known
+                            and isinstance(lp.iter, (ast.Tuple, ast.List)) and 2 <= len(lp.iter.elts) <= 4 and all(_plain_path(e_) for e_ in lp.iter.elts)):
+                        continue
+                    x = lp.target.id
+                    if any(isinstance(n, ast.Name) and n.id == x and isinstance(n.ctx, ast.Store) for b_ in lp.body for n in ast.walk(b_)):
+                        continue
+                    # a break/continue that belongs to this loop (not to a loop nested in the body)
+                    def own_jumps(stmts):
+                        for s_ in stmts:
+                            if isinstance(s_, (ast.Break, ast.Continue)):
+                                return True
+                            if isinstance(s_, (ast.For, ast.While, ast.AsyncFor, ast.FunctionDef, ast.AsyncFunctionDef, ast.ClassDef)):
+                                continue
+                            for f_ in ("body", "orelse", "finalbody"):
+                                sub = getattr(s_, f_, None)
+                                if isinstance(sub, list) and sub and isinstance(sub[0], ast.stmt) and own_jumps(sub):
+                                    return True
+                            if any(own_jumps(h.body) for h in getattr(s_, "handlers", []) or []):
+                                return True
+                        return False
+                    if own_jumps(lp.body) or sum(1 for n in ast.walk(fn) if isinstance(n, ast.Name) and n.id == x) != 1 + sum(1 for b_ in lp.body for n in ast.walk(b_) if isinstance(n, ast.Name) and n.id == x):
+                        continue
+                    copies = []
+                    for e_ in lp.iter.elts:
+                        for b_ in lp.body:
+                            c_ = copy.deepcopy(b_)
+                            copies.append(_Subst({x: e_}).visit(c_))
+                    k = blk.index(lp)
+                    blk[k:k + 1] = copies
+                    i = k + len(copies)
+                    done += 1
+        ast.fix_missing_locations(fn)
+    return done
+
+
 def fold_new_fill_loops(tree: ast.Module, relpath: str) -> int:
     """`A = []` immediately followed by `for v in IT: [if C: ...] A.append(E)` where A is a local that does not exist on the reference
     tree, the loop body is nothing but that (possibly guarded) append, A is not mentioned elsewhere in the loop and v nowhere else in the
